@@ -26,7 +26,20 @@ PAIRS = {
                      [(0, 1), (1, 2), (2, 3)],
                      [('C1', 'TA', 1), ('C2', 'TA', 1), ('C3', 'TB', 2), ('C4', 'TC', 3), ('C5', 'TC', 3)],
                      [(0, 1), (1, 2), (2, 3), (3, 4)]),
+    # exactly collinear reference (dyadic coordinates along x): the frames use the library's arbitrary-normal
+    # fallback, which must be the same normal on every call and in a fresh map
+    'collinear4_to_3': ([('B1', 'REF', 1), ('B2', 'REF', 1), ('B3', 'REF', 1), ('B4', 'REF', 1)],
+                        [(0, 1), (1, 2), (2, 3)],
+                        [('C1', 'TGT', 1), ('C2', 'TGT', 1), ('C3', 'TGT', 1)], [(0, 1), (1, 2)]),
+    # target with two ADJACENT residues of the same name; argument 1 carries one number on both of its residues
+    'res2_to_res2same': ([('B1', 'RA', 1), ('B2', 'RA', 1), ('B3', 'RB', 2), ('B4', 'RB', 2)],
+                         [(0, 1), (1, 2), (2, 3)],
+                         [('C1', 'TT', 1), ('C2', 'TT', 1), ('C3', 'TT', 2)], [(0, 1), (1, 2)]),
 }
+COLLINEAR_BASE = np.array([[0.0, 0.25, -0.5], [0.25, 0.25, -0.5], [0.625, 0.25, -0.5], [1.0, 0.25, -0.5]])
+CUBE3 = (np.array([[0.0, -1.0, 0.0], [1.0, 0.0, 0.0], [0.0, 0.0, 1.0]]),
+         np.array([[0.0, 0.0, 1.0], [0.0, 1.0, 0.0], [-1.0, 0.0, 0.0]]),
+         np.array([[1.0, 0.0, 0.0], [0.0, 0.0, -1.0], [0.0, 1.0, 0.0]]))
 EVENTS = [['call', 0], ['call', 1], ['call', 2], ['call', 'ref'], ['call_wrong_species'], ['call_target_itself'],
           ['call_ndarray'], ['call_same_name_longer'], ['call_same_name_shorter'],
           ['mut_ref_coords'], ['mut_tgt_coords'], ['mut_arg_coords', 1], ['mut_last_result'],
@@ -52,11 +65,17 @@ class World:
         for k in range(3):                      # three arguments: moved, rotated and deformed
             jit = _dec(generic_points(nr, seed, scale=0.05, tag=50 + k))
             confs.append(_dec((base - base.mean(axis=0)) @ rots[k].T + np.array([2.0 + k, -1.0, 0.5 * k]) + jit))
+        if pair == 'collinear4_to_3':           # exact: axis-permuting rotations and dyadic shifts, no jitter
+            base = COLLINEAR_BASE.copy()
+            confs = [base] + [base @ CUBE3[k].T + np.array([2.0 + k, -1.0, 0.5 * k]) for k in range(3)]
         nres = len({a[2] for a in ratoms})
         recs = []
         for m, conf in enumerate(confs):
             for i, (an, rn, ri) in enumerate(ratoms):
-                recs.append((ri + 10 * m, rn, an, i + 1 + nr * m, conf[i]))
+                rid = ri + 10 * m
+                if pair == 'res2_to_res2same' and m == 2:
+                    rid = 33              # argument 1 carries the SAME number on both of its (differently named) residues
+                recs.append((rid, rn, an, i + 1 + nr * m, conf[i]))
         itp_ref = itp_text('REFMOL', ratoms, redges)
         self.syst = System(MemFile(gro_text(recs), 'sys.gro'), MemFile(itp_ref, 'REFMOL.itp'))
         assert len(self.syst) == 4
@@ -80,7 +99,8 @@ class World:
         # conformation: same geometric centre (to rounding), same first atom position is NOT kept
         a0 = self.args[0].atoms_positions
         c0 = a0.mean(axis=0)
-        self.args[2].atoms_positions = (a0 - c0) @ rots[1].T + c0
+        if pair != 'collinear4_to_3':
+            self.args[2].atoms_positions = (a0 - c0) @ rots[1].T + c0
         self.map = ExchangeMap(self.ref, self.tgt, SCALE)
         self.results = []
         self.tnames = [a[0] for a in tatoms]
@@ -155,7 +175,7 @@ class C04(Check):
             'non-trivial = a call event whose result was compared with a freshly built map')
     technique = ('explicit-state breadth-first search over call/mutation histories on the real ExchangeMap with a '
                  'differential oracle (fresh map built from fresh files) after every transition; de Bruijn histories')
-    level_text = ('every history up to depth 4 (quick) / 5 (thorough) over a 14-event alphabet, on 3 reference/target '
+    level_text = ('every history up to depth 4 (quick) / 5 (thorough) over a 14-event alphabet, on 5 reference/target '
                   'pairs x 2 ways of producing arguments (sharing the species topology as System does / independently '
                   'loaded), is executed on the real map and checked after every event; histories of length 101 and 1002 '
                   'containing every ordered pair / triple of events cover the long-history clause')
